@@ -405,6 +405,10 @@ class Interp:
             kwargs = {k.arg: self.ev(k.value, env) for k in e.keywords if k.arg}
             if isinstance(fn, Function):
                 return fn(*args, **kwargs)
+            if isinstance(fn, StubCall):
+                return fn.f(*args, **kwargs)
+            if isinstance(fn, Stub) and hasattr(fn, "_abs_call"):
+                return fn._abs_call(*args, **kwargs)
             # key=lambda for sorted/max/min: wrap interpreted functions
             if "key" in kwargs and isinstance(kwargs["key"], Function):
                 kf = kwargs["key"]
@@ -425,8 +429,8 @@ class Interp:
                 if len(args) == 3:
                     return args[2]
                 raise Unsupported(f"stub {type(args[0]).__name__} has no attribute {args[1]}")
-            if fn in BUILTINS.values() or any(fn in m.values() for m in MODULES.values()):
-                if fn in (sorted, list, set, tuple, max, min, sum, any, all, enumerate, zip, frozenset, reversed, dict) and args and not isinstance(args[0], PURE_TYPES):
+            if any(fn is b for b in BUILTINS.values()) or any(fn is b for m in MODULES.values() for b in m.values()):
+                if any(fn is b for b in (sorted, list, set, tuple, max, min, sum, any, all, enumerate, zip, frozenset, reversed, dict)) and args and not isinstance(args[0], PURE_TYPES):
                     args[0] = list(self.iterate(args[0]))
                 return fn(*args, **kwargs)
             owner = getattr(fn, "__self__", None)
